@@ -181,7 +181,9 @@ def run(repo, rep):
     # quotes, escapes, wide gaps, runs of combining marks; widths 1..13) by the interpreter with a bound of 4000 iterations per call:
     # a call that is still looping then does not terminate for that text
     from . import strmodel
-    rep.floor('C12.b:splitter', strmodel.run(repo, rep, {'pieces': 'C12.b'}), 1)
+    rep.floor('C12.b:splitter', strmodel.run(repo, rep, {'terminates': 'C12.b'}), 1)
+    from . import layoutmodel
+    rep.floor('C12.b:layout', layoutmodel.run(repo, rep, {'loop': 'C12.b'}), 1)
 
     # ---------------------------------------------------------------- C12.c progress floor
     n = 0
